@@ -22,9 +22,26 @@ inductive PFut
   | finished                     -- cancelled / timed out: anything that makes set_result raise InvalidStateError
 deriving Repr, BEq
 
-/-- upward calls -/
+/-- upward and outward calls -/
 inductive PEv
   | callback (name : String) (v : Vals)     -- self._handle_callback(frame_name, result)
+  | sent (d : List UInt8)                   -- await self._gw.send_data(data): the bytes handed over
+  | acquire (prio : Int)                    -- the send semaphore was entered with this priority
+  | release                                 -- ... and left
+  | wait (timeout : Nat)                    -- the bounded wait for the reply was entered
+deriving Repr, BEq
+
+/-- how a wait that the reply does not end is ended -/
+inductive WaitEnd
+  | deadline        -- the timeout context fires
+  | cancelled       -- the caller's task is cancelled
+deriving Repr, BEq, DecidableEq
+
+/-- what the environment does at the three await points of `ProtocolHandler.command` (BV/Py/CmdEnv.lean) -/
+inductive CResp
+  | acquire (granted : Bool)                                    -- the semaphore is entered / the caller is cancelled while queued
+  | send (frames : List (List UInt8)) (raises : Option String)  -- frames received while send_data runs; it returns / raises the class
+  | wait (frames : List (List UInt8)) (fin : WaitEnd)           -- frames received while the reply is awaited; then, if still pending, `fin`
 deriving Repr, BEq
 
 structure Proto where
@@ -34,6 +51,10 @@ structure Proto where
   awaiting : List (Nat × (Nat × Nat)) := []
   futs : List PFut := []
   trace : List PEv := []
+  /-- `_seq`: the next request sequence number -/
+  seq : Nat := 0
+  /-- the environment's answers at the await points of `command`, in order -/
+  script : List CResp := []
 deriving Repr
 
 /-- `self._ezsp_frame_rx(data)` of the class serving this protocol version -/
